@@ -1807,6 +1807,21 @@ impl TypeChecker {
     }
 
     fn add(&mut self, span: Span, ctx: TypeCtx, a: TyID, b: TyID) -> TypeResult<()> {
+        self.add_seen(span, ctx, a, b, &mut BTreeSet::new())
+    }
+
+    // Types can be cyclic (`a := []; push(a, a)`), `seen` keeps the element-wise check finite.
+    fn add_seen(
+        &mut self,
+        span: Span,
+        ctx: TypeCtx,
+        a: TyID,
+        b: TyID,
+        seen: &mut BTreeSet<(TyID, TyID)>,
+    ) -> TypeResult<()> {
+        if !seen.insert((self.find(a), self.find(b))) {
+            return Ok(());
+        }
         match (self.find_type(a), self.find_type(b)) {
             (Type::Unknown, _) | (_, Type::Unknown) => Ok(()),
 
@@ -1814,7 +1829,7 @@ impl TypeChecker {
 
             (Type::Tuple(a), Type::Tuple(b)) if a.len() == b.len() => {
                 for (a, b) in a.iter().zip(b.iter()) {
-                    self.add(span, ctx, *a, *b)?;
+                    self.add_seen(span, ctx, *a, *b, seen)?;
                 }
                 Ok(())
             }
@@ -1832,6 +1847,19 @@ impl TypeChecker {
     }
 
     fn neg(&mut self, span: Span, ctx: TypeCtx, a: TyID) -> TypeResult<()> {
+        self.neg_seen(span, ctx, a, &mut BTreeSet::new())
+    }
+
+    fn neg_seen(
+        &mut self,
+        span: Span,
+        ctx: TypeCtx,
+        a: TyID,
+        seen: &mut BTreeSet<TyID>,
+    ) -> TypeResult<()> {
+        if !seen.insert(self.find(a)) {
+            return Ok(());
+        }
         match self.find_type(a) {
             Type::Unknown | Type::Int | Type::Float => Ok(()),
 
@@ -1839,7 +1867,7 @@ impl TypeChecker {
             Type::Tuple(tys) => {
                 for ty in tys.iter() {
                     self.add_constraint(*ty, span, Constraint::Neg);
-                    self.neg(span, ctx, *ty)?;
+                    self.neg_seen(span, ctx, *ty, seen)?;
                 }
                 Ok(())
             }
@@ -1853,6 +1881,21 @@ impl TypeChecker {
     }
 
     fn sub(&mut self, span: Span, ctx: TypeCtx, a: TyID, b: TyID) -> TypeResult<()> {
+        self.sub_seen(span, ctx, a, b, &mut BTreeSet::new())
+    }
+
+    // Types can be cyclic (`a := []; push(a, a)`), `seen` keeps the element-wise check finite.
+    fn sub_seen(
+        &mut self,
+        span: Span,
+        ctx: TypeCtx,
+        a: TyID,
+        b: TyID,
+        seen: &mut BTreeSet<(TyID, TyID)>,
+    ) -> TypeResult<()> {
+        if !seen.insert((self.find(a), self.find(b))) {
+            return Ok(());
+        }
         match (self.find_type(a), self.find_type(b)) {
             (Type::Unknown, _) | (_, Type::Unknown) => Ok(()),
 
@@ -1860,7 +1903,7 @@ impl TypeChecker {
 
             (Type::Tuple(a), Type::Tuple(b)) if a.len() == b.len() => {
                 for (a, b) in a.iter().zip(b.iter()) {
-                    self.sub(span, ctx, *a, *b)?;
+                    self.sub_seen(span, ctx, *a, *b, seen)?;
                 }
                 Ok(())
             }
@@ -1878,6 +1921,21 @@ impl TypeChecker {
     }
 
     fn mul(&mut self, span: Span, ctx: TypeCtx, a: TyID, b: TyID) -> TypeResult<()> {
+        self.mul_seen(span, ctx, a, b, &mut BTreeSet::new())
+    }
+
+    // Types can be cyclic (`a := []; push(a, a)`), `seen` keeps the element-wise check finite.
+    fn mul_seen(
+        &mut self,
+        span: Span,
+        ctx: TypeCtx,
+        a: TyID,
+        b: TyID,
+        seen: &mut BTreeSet<(TyID, TyID)>,
+    ) -> TypeResult<()> {
+        if !seen.insert((self.find(a), self.find(b))) {
+            return Ok(());
+        }
         match (self.find_type(a), self.find_type(b)) {
             (Type::Unknown, _) | (_, Type::Unknown) => Ok(()),
 
@@ -1885,7 +1943,7 @@ impl TypeChecker {
 
             (Type::Tuple(a), Type::Tuple(b)) if a.len() == b.len() => {
                 for (a, b) in a.iter().zip(b.iter()) {
-                    self.mul(span, ctx, *a, *b)?;
+                    self.mul_seen(span, ctx, *a, *b, seen)?;
                 }
                 Ok(())
             }
@@ -1903,6 +1961,20 @@ impl TypeChecker {
     }
 
     fn div(&mut self, span: Span, ctx: TypeCtx, a: TyID, b: TyID) -> TypeResult<()> {
+        self.div_seen(span, ctx, a, b, &mut BTreeSet::new())
+    }
+
+    fn div_seen(
+        &mut self,
+        span: Span,
+        ctx: TypeCtx,
+        a: TyID,
+        b: TyID,
+        seen: &mut BTreeSet<(TyID, TyID)>,
+    ) -> TypeResult<()> {
+        if !seen.insert((self.find(a), self.find(b))) {
+            return Ok(());
+        }
         match (self.find_type(a), self.find_type(b)) {
             (Type::Unknown, _) => Ok(()),
             (_, Type::Unknown) => Ok(()),
@@ -1911,14 +1983,14 @@ impl TypeChecker {
 
             (Type::Tuple(a), Type::Float | Type::Int) => {
                 for a in a.iter() {
-                    self.div(span, ctx, *a, b)?;
+                    self.div_seen(span, ctx, *a, b, seen)?;
                 }
                 Ok(())
             }
 
             (Type::Tuple(a), Type::Tuple(b)) if a.len() == b.len() => {
                 for (a, b) in a.iter().zip(b.iter()) {
-                    self.div(span, ctx, *a, *b)?;
+                    self.div_seen(span, ctx, *a, *b, seen)?;
                 }
                 Ok(())
             }
@@ -1936,6 +2008,26 @@ impl TypeChecker {
     }
 
     fn div_res(&mut self, span: Span, ctx: TypeCtx, a: TyID, b: TyID) -> TypeResult<()> {
+        self.div_res_seen(span, ctx, a, b, &mut BTreeMap::new())
+    }
+
+    fn div_res_seen(
+        &mut self,
+        span: Span,
+        ctx: TypeCtx,
+        a: TyID,
+        b: TyID,
+        seen: &mut BTreeMap<TyID, TyID>,
+    ) -> TypeResult<()> {
+        // A cyclic dividend has a cyclic result: reuse the result made for it the first time.
+        let root = self.find(a);
+        if let Some(result) = seen.get(&root).cloned() {
+            if self.find(result) != self.find(b) {
+                self.unify(span, ctx, b, result)?;
+            }
+            return Ok(());
+        }
+        seen.insert(root, b);
         match (self.find_type(a), self.find_type(b)) {
             (Type::Float | Type::Int, Type::Float) => Ok(()),
 
@@ -1952,12 +2044,13 @@ impl TypeChecker {
                 let tuple = self.push_type(Type::Tuple(tys));
                 self.unify(span, ctx, b, tuple)?;
                 // Retry with the new info
-                self.div_res(span, ctx, a, b)
+                seen.remove(&root);
+                self.div_res_seen(span, ctx, a, b, seen)
             }
 
             (Type::Tuple(a), Type::Tuple(b)) if a.len() == b.len() => {
                 for (a, b) in a.iter().zip(b.iter()) {
-                    self.div_res(span, ctx, *a, *b)?;
+                    self.div_res_seen(span, ctx, *a, *b, seen)?;
                 }
                 Ok(())
             }
@@ -1979,6 +2072,21 @@ impl TypeChecker {
     }
 
     fn cmp(&mut self, span: Span, ctx: TypeCtx, a: TyID, b: TyID) -> TypeResult<()> {
+        self.cmp_seen(span, ctx, a, b, &mut BTreeSet::new())
+    }
+
+    // Types can be cyclic (`a := []; push(a, a)`), `seen` keeps the element-wise check finite.
+    fn cmp_seen(
+        &mut self,
+        span: Span,
+        ctx: TypeCtx,
+        a: TyID,
+        b: TyID,
+        seen: &mut BTreeSet<(TyID, TyID)>,
+    ) -> TypeResult<()> {
+        if !seen.insert((self.find(a), self.find(b))) {
+            return Ok(());
+        }
         match (self.find_type(a), self.find_type(b)) {
             (Type::Unknown, _) | (_, Type::Unknown) => Ok(()),
 
@@ -1990,7 +2098,7 @@ impl TypeChecker {
 
             (Type::Tuple(a), Type::Tuple(b)) if a.len() == b.len() => {
                 for (a, b) in a.iter().zip(b.iter()) {
-                    self.cmp(span, ctx, *a, *b)?;
+                    self.cmp_seen(span, ctx, *a, *b, seen)?;
                 }
                 Ok(())
             }
